@@ -364,6 +364,8 @@ func instance(class string, variant int) string {
 		return ""
 	case "blank":
 		return []string{"   ", "  ", " 　"}[variant%3]
+	case "invisible":
+		return []string{"\u200b", "\ufeff\u200e", "\u00ad\u200b "}[variant%3]
 	case "ok":
 		return []string{"alice", "Bob Smith", "x"}[variant%3]
 	case "unicode":
